@@ -202,16 +202,32 @@ struct JSON {
                     SizeT         len = JSONUtils::UnEscape(str, (length - offset), stream);
 
                     if (len != 0) {
-                        offset += len;
-                        --len;
+                        // UnEscape also stops at the end of the text: the string is closed only if its last unit is
+                        // a quote that no backslash escapes (an even run of backslashes in front of it).
+                        SizeT last   = (len - SizeT{1});
+                        bool  closed = false;
 
-                        if (stream.IsNotEmpty()) {
-                            str = stream.First();
-                            len = stream.Length();
-                            stream.Clear();
+                        if (str[last] == JSONotation::QuoteChar) {
+                            closed = true;
+
+                            while ((last != 0) && (str[last - SizeT{1}] == JSONotation::BSlashChar)) {
+                                --last;
+                                closed = !closed;
+                            }
                         }
 
-                        return ValueT{String<Char_T>{str, len}};
+                        if (closed) {
+                            offset += len;
+                            --len;
+
+                            if (stream.IsNotEmpty()) {
+                                str = stream.First();
+                                len = stream.Length();
+                                stream.Clear();
+                            }
+
+                            return ValueT{String<Char_T>{str, len}};
+                        }
                     }
 
                     break;
